@@ -785,6 +785,23 @@ func main() {
 	}
 	w0 := <-pool
 	w0.corpus(out)
+	// app wiring the savings clause rests on: "the module account balance always equals the sum of all recorded
+	// deposits" can only hold if nobody can simply SEND coins to the savings module account, i.e. if it is a
+	// blocked address of x/bank (app.go loadBlockedMaccAddrs).  Try it with a real bank send on a discarded branch.
+	{
+		cx, _ := w0.base.CacheContext()
+		bk := w0.tApp.GetBankKeeper()
+		donor := w0.users[0]
+		_ = w0.tApp.FundAccount(cx, donor, sdk.NewCoins(sdk.NewInt64Coin("ukava", 7)))
+		blocked := bk.BlockedAddr(w0.savAcc)
+		var sendErr error
+		if !blocked { // what the bank msg server does: refuse blocked recipients, then SendCoins
+			sendErr = bk.SendCoins(cx, donor, w0.savAcc, sdk.NewCoins(sdk.NewInt64Coin("ukava", 7)))
+		}
+		if !blocked && sendErr == nil {
+			out.Violation("C11 app wiring: the savings module account is not a blocked address of x/bank: a plain MsgSend of 7ukava to it succeeds and the module account then holds more than the sum of all recorded deposits")
+		}
+	}
 	pool <- w0
 	kapp.RunSeqs(n, workers, r, func() *world { return <-pool }, func(w *world, seq int, r *c.Rng) { w.seq(out, seq, r) })
 
